@@ -453,6 +453,23 @@ class CrashSaveEngine(Engine):
                     if not rec2.aborted:
                         continue
                     files = _read_dir(ropedir)
+                    # the process survived the interruption (the exception was handled): saving again in
+                    # the same process must now write the complete new version
+                    W.use()
+                    retry_exc = None
+                    try:
+                        W.project.close()
+                    except Exception as e:
+                        retry_exc = e
+                    after_retry = _read_dir(ropedir)
+                    out.stats["exec_save_retried_after_interruption"] += 1
+                    if retry_exc is not None or {k: v for k, v in after_retry.items() if not k.endswith(".tmp")} != \
+                            {k: v for k, v in post.items() if not k.endswith(".tmp")}:
+                        out.violate("retry_after_interrupted_save_incomplete", {"point": "abort", "exc": type(retry_exc).__name__ if retry_exc else None},
+                                    {"crash_point": "abort[%d]:%s:%s:%s" % (idx, events[idx][0], where, exc_kind),
+                                     "exc": repr(retry_exc)[:200] if retry_exc else None,
+                                     "files_after_retry": _sizes(after_retry), "files_of_a_complete_save": _sizes(post)},
+                                    where="abort[%d]:%s:%s:%s" % (idx, events[idx][0], where, exc_kind))
                     key = hashlib.sha256(kernel.canon(sorted(files.items())).encode()).hexdigest()
                     n_ab += 1
                     out.evals += 1
